@@ -27,32 +27,48 @@ CTXS = [[], [], [], [], [], [], [], [], ["numpy.einsum"], ["numpy.numpylike"], [
 # ------------------------------------------------------------------------------------------------
 # pool of descriptors (a pure function of the master seed and the pool size)
 # ------------------------------------------------------------------------------------------------
-def make_alias(r, d):
-    """An equal-but-not-identical variant of descriptor d (F-alias), or None."""
-    d = json.loads(json.dumps(d))
-    choices = ["space"]
-    int_kw = [k for k, v in d["kw"].items() if isinstance(v, int) and not isinstance(v, bool)]
-    if int_kw:
-        choices += ["kw"] * 4 + ["neighbour"] * 2
-    if any(isinstance(v, float) for v in d["kw"].values()):
-        choices += ["neighbour"] * 2
+ALIAS_KINDS = ["space", "kworder", "kw-float", "kw-npint", "kw-npfloat", "kw-bool", "kw-0d-int", "kw-0d-float", "neighbour", "tensor-factory", "tensor-dtype", "tensor-scalar"]
+
+
+def applicable_alias_kinds(d):
+    out = ["space"]
+    num_kw = {k: v for k, v in d["kw"].items() if isinstance(v, int | float) and not isinstance(v, bool)}
+    int_kw = {k: v for k, v in num_kw.items() if isinstance(v, int)}
     if len(d["kw"]) > 1:
-        choices.append("kworder")
-    nd = [j for j, t in enumerate(d["tensors"]) if "shape" in t]
+        out.append("kworder")
+    if int_kw:
+        out += ["kw-float", "kw-npint", "kw-npfloat", "kw-0d-int", "kw-0d-float"]
+        if any(v in (0, 1) for v in int_kw.values()):
+            out.append("kw-bool")
+    if num_kw:
+        out.append("neighbour")
+    nd = [t for t in d["tensors"] if "shape" in t]
     if nd:
-        choices += ["tensor"] * 2
-    c = r.choice(choices)
-    if c == "space":
+        out += ["tensor-factory", "tensor-dtype"]
+        if any(t["shape"] == [] for t in nd):
+            out.append("tensor-scalar")
+    return out
+
+
+def make_alias(r, d, kind):
+    """An equal-but-not-identical (or, for 'neighbour', a confusable) variant of descriptor d (F-alias)."""
+    d = json.loads(json.dumps(d))
+    int_kw = sorted(k for k, v in d["kw"].items() if isinstance(v, int) and not isinstance(v, bool))
+    if kind == "space":
         d["desc"] = d["desc"].replace(" ", "  ", 1) if " " in d["desc"] else d["desc"] + " "
-    elif c == "kw":
-        k = r.choice(sorted(int_kw))
+    elif kind == "kworder":
+        items = list(d["kw"].items())
+        r.shuffle(items)
+        if list(dict(items)) == list(d["kw"]):
+            items = items[::-1]
+        d["kw"] = dict(items)
+    elif kind.startswith("kw-"):
+        ks = [k for k in int_kw if d["kw"][k] in (0, 1)] if kind == "kw-bool" else int_kw
+        k = r.choice(ks)
         v = d["kw"][k]
-        alts = [float(v), {"np": "int64", "value": v}, {"np": "float32", "value": v}, {"np": "float64", "value": v},
-                {"nd": {"shape": [], "dtype": "int64", "data": [v]}}, {"nd": {"shape": [], "dtype": "float64", "data": [float(v)]}}]
-        if v in (0, 1):
-            alts += [bool(v), bool(v)]
-        d["kw"][k] = r.choice(alts)
-    elif c == "neighbour":
+        d["kw"][k] = {"kw-float": float(v), "kw-npint": {"np": "int64", "value": v}, "kw-npfloat": {"np": r.choice(["float32", "float64"]), "value": v}, "kw-bool": bool(v),
+                      "kw-0d-int": {"nd": {"shape": [], "dtype": "int64", "data": [v]}}, "kw-0d-float": {"nd": {"shape": [], "dtype": "float64", "data": [float(v)]}}}[kind]
+    elif kind == "neighbour":
         # not an equal value but a related one that a too coarse cache key would conflate (hash(-1) == hash(-2), 0.0 == -0.0)
         ks = sorted(k for k, v in d["kw"].items() if isinstance(v, int | float) and not isinstance(v, bool))
         k = r.choice(ks)
@@ -61,34 +77,30 @@ def make_alias(r, d):
             d["kw"][k] = -v if v == 0 else (-2.0 if v == -1.0 else (-1.0 if v == -2.0 else v + 1.0))
         else:
             d["kw"][k] = -2 if v == -1 else (-1 if v == -2 else v + 1)
-    elif c == "kworder":
-        items = list(d["kw"].items())
-        r.shuffle(items)
-        d["kw"] = dict(items)
     else:
+        nd = [j for j, t in enumerate(d["tensors"]) if "shape" in t]
+        if kind == "tensor-scalar":
+            nd = [j for j in nd if d["tensors"][j]["shape"] == []]
         j = r.choice(nd)
         t = d["tensors"][j]
-        if t["shape"] == [] and r.random() < 0.7:
+        if kind == "tensor-scalar":
             v = t["data"][0]
             d["tensors"][j] = {"scalar": v, "type": r.choice(["float", "np.float64", "np.float32"]) if t["dtype"].startswith("float") else r.choice(["int", "np.int64", "float"])}
+        elif kind == "tensor-factory":
+            d["tensors"][j] = {"factory": {"of": t, "mode": "ok"}}
+        elif t["dtype"] == "int64":
+            d["tensors"][j] = dict(t, dtype="float64", data=[float(x) for x in t["data"]])
+        elif t["dtype"] == "float64":
+            d["tensors"][j] = dict(t, dtype="float32")
         else:
-            k = r.random()
-            if k < 0.5:
-                d["tensors"][j] = {"factory": {"of": t, "mode": "ok"}}
-                if not d.get("backend"):
-                    d["backend"] = None
-            elif t["dtype"] == "int64":
-                d["tensors"][j] = dict(t, dtype="float64", data=[float(x) for x in t["data"]])
-            elif t["dtype"] == "float64":
-                d["tensors"][j] = dict(t, dtype="float32")
-            else:
-                d["tensors"][j] = {"factory": {"of": t, "mode": "ok"}}
+            d["tensors"][j] = dict(t, dtype="int64", data=[int(x) for x in t["data"]])
     return d
 
 
 def gen_pool(master, size):
     r = rng.stream(rng.derive(master, ID, "pool"), "pool")
     pool = []
+    alias_count = {}
     while len(pool) < size:
         fam = r.random()
         if fam < 0.12:
@@ -109,6 +121,9 @@ def gen_pool(master, size):
                     d["kw"]["alpha"] = r.choice([1, 2, 3, -1, -2, 0.0, -0.0, -2.0])
         else:
             d = workload.gen_call(r)
+        if d.get("_axes") and r.random() < 0.45:  # redundant (consistent) size keywords: more keyword values for the cache key to get wrong
+            for n in r.sample(sorted(d["_axes"]), min(len(d["_axes"]), r.randint(1, 2))):
+                d["kw"].setdefault(n, d["_axes"][n])
         if r.random() < 0.25:
             d = workload.corrupt(r, d)
         if r.random() < 0.15 and not d["op"].startswith(("solve", "matches")):
@@ -123,12 +138,16 @@ def gen_pool(master, size):
         ctx = r.choice(CTXS) if not d["op"].startswith(("solve", "matches")) else []
         base = len(pool)
         pool.append({"d": d, "ctx": ctx, "alias_of": None})
-        for _ in range(r.choice([0, 0, 1, 1, 2])):
+        kinds = applicable_alias_kinds(d)
+        for _ in range(r.choice([0, 1, 1, 2, 2])):
             if len(pool) >= size:
                 break
-            a = make_alias(r, d)
-            if a is not None and a != d:
-                pool.append({"d": a, "ctx": ctx, "alias_of": base})
+            m = min(alias_count.get(k, 0) for k in kinds)  # stratified: the rarest applicable kind first
+            kind = r.choice([k for k in kinds if alias_count.get(k, 0) == m])
+            a = make_alias(r, d, kind)
+            if json.dumps(a, sort_keys=False) != json.dumps(d, sort_keys=False):  # not `a != d`: 2 == 2.0 == True in Python
+                alias_count[kind] = alias_count.get(kind, 0) + 1
+                pool.append({"d": a, "ctx": ctx, "alias_of": base, "alias_kind": kind})
     return pool
 
 
@@ -456,6 +475,10 @@ def main(tier):
         t.join()
     if ref_err:
         print(f"[{ID}] HARNESS-ERROR reference zygote: {ref_err[:2]}")
+        return 2
+    good_refs = sum(1 for o in table if o is not None and o["kind"] != "exc")
+    if good_refs < 0.3 * len(table):
+        print(f"[{ID}] HARNESS-ERROR vacuous batch: only {good_refs} of {len(table)} pristine references succeed - the tree under test or the generator is broken")
         return 2
     env_of = {i: g["env"] for g in groups for i in g["indices"]}
     # judge
